@@ -134,7 +134,6 @@ func collect() {
 		runtime.SetFinalizer(s, func(*sentinel) { close(done) })
 		s = nil
 		runtime.GC()
-		runtime.GC()
 		select {
 		case <-done:
 		case <-time.After(5 * time.Second):
@@ -154,4 +153,48 @@ func collect() {
 		rt.Reach("runtime.finalizer-started")
 		rt.GoParty(d.party, "finalizer", d.run)
 	}
+}
+
+// Cleanup is runtime.Cleanup for AddCleanup.
+type Cleanup struct {
+	real    runtime.Cleanup
+	stopped *bool
+}
+
+// Stop cancels the cleanup.
+func (c Cleanup) Stop() {
+	if c.stopped != nil {
+		*c.stopped = true
+	}
+	c.real.Stop()
+}
+
+// AddCleanup is runtime.AddCleanup; inside a simulated run the cleanup is started by the
+// simulator's garbage-collection cycles, like a finalizer.
+func AddCleanup[T, S any](ptr *T, cleanup func(S), arg S) Cleanup {
+	if !rt.Active() || rt.RunEpoch() == 0 {
+		return Cleanup{real: runtime.AddCleanup(ptr, cleanup, arg)}
+	}
+	finSeq++
+	seq, epoch := finSeq, rt.RunEpoch()
+	party := ""
+	if cur := rt.Current(); cur != nil {
+		party = cur.Party
+	}
+	stopped := new(bool)
+	c := runtime.AddCleanup(ptr, func(a S) {
+		finMu.Lock()
+		finDue = append(finDue, dueFinalizer{seq: seq, epoch: epoch, party: party, run: func() {
+			if !*stopped {
+				cleanup(a)
+			}
+		}})
+		finMu.Unlock()
+	}, arg)
+	rt.Reach("runtime.finalizer-registered")
+	if finHook != epoch {
+		finHook = epoch
+		rt.SetGCHook(collect)
+	}
+	return Cleanup{real: c, stopped: stopped}
 }
